@@ -390,6 +390,7 @@ def run_impl(case):
         return {'steps': steps, 'mevents': mevents, 'after': after, 'final': [STATE_CODE.get(state, 7), exc],
                 'ctx': jcopy([[k, v] for k, v in wc.ctx.__dict__.items()]), 'errs': errs, 'calls': h.calls,
                 'outcomes': {str(k): v for k, v in h.outcomes.items()}, 'done_order': list(h.done_order),
+                'fates': {str(k): c.state.value for k, c in h.children.items()},
                 'quiescent': not s.ready()}
     finally:
         s.close()
@@ -413,6 +414,11 @@ def oracle(case, obs):
         return None                 # cancelled awaitables are outside the property's quantifier
     steps = obs['steps']
     outc = {int(k): v for k, v in obs['outcomes'].items()}
+    # what really happened to an awaited child, whatever its future says
+    dead = {int(k) for k, v in obs.get('fates', {}).items() if v in ('killed', 'excepted')}
+    for k in dead:
+        if k in outc and outc[k][0] == 'val':
+            return {'signature': 'killed_or_excepted_child_delivered_a_value', 'kind': 'failure', 'future': k, 'observed': outc[k]}
     for i, st in enumerate(steps):
         if not st['waits']:
             continue
